@@ -64,15 +64,18 @@ impl DecoderWork {
         index: usize,
         original_shard: T,
     ) -> Result<(), Error> {
+        if index >= self.original_count {
+            return Err(Error::InvalidOriginalShardIndex {
+                original_count: self.original_count,
+                index,
+            });
+        }
+
+        // Only now is `index` known to be small enough for this not to overflow.
         let pos = self.original_base_pos + index;
         let original_shard = original_shard.as_ref();
 
-        if index >= self.original_count {
-            Err(Error::InvalidOriginalShardIndex {
-                original_count: self.original_count,
-                index,
-            })
-        } else if self.received[pos] {
+        if self.received[pos] {
             Err(Error::DuplicateOriginalShardIndex { index })
         } else if original_shard.len() != self.shard_bytes {
             Err(Error::DifferentShardSize {
@@ -93,15 +96,18 @@ impl DecoderWork {
         index: usize,
         recovery_shard: T,
     ) -> Result<(), Error> {
+        if index >= self.recovery_count {
+            return Err(Error::InvalidRecoveryShardIndex {
+                recovery_count: self.recovery_count,
+                index,
+            });
+        }
+
+        // Only now is `index` known to be small enough for this not to overflow.
         let pos = self.recovery_base_pos + index;
         let recovery_shard = recovery_shard.as_ref();
 
-        if index >= self.recovery_count {
-            Err(Error::InvalidRecoveryShardIndex {
-                recovery_count: self.recovery_count,
-                index,
-            })
-        } else if self.received[pos] {
+        if self.received[pos] {
             Err(Error::DuplicateRecoveryShardIndex { index })
         } else if recovery_shard.len() != self.shard_bytes {
             Err(Error::DifferentShardSize {
@@ -189,12 +195,17 @@ impl DecoderWork {
 
     // This must only be called by `DecoderResult`.
     pub(crate) fn restored_original(&self, index: usize) -> Option<&[u8]> {
+        if index >= self.original_count {
+            return None;
+        }
+
+        // Only now is `index` known to be small enough for this not to overflow.
         let pos = self.original_base_pos + index;
 
-        if index < self.original_count && !self.received[pos] {
-            Some(&self.shards[pos].as_flattened()[..self.shard_bytes])
-        } else {
+        if self.received[pos] {
             None
+        } else {
+            Some(&self.shards[pos].as_flattened()[..self.shard_bytes])
         }
     }
 
